@@ -137,8 +137,10 @@ def run(res, tier, seed):
             res.violation(dict(desc, what=f"returned a value although NumOpCount={row['ops']} exceeds OpCountLimit={L}", value=row.get("str")))
             found += 1
         # work proportional to the budget: wall clock as a backstop (a dispatch costs well under 1 microsecond.. 1 ms)
-        if row["ms"] > (3000 if L == 50 else 20000):
-            res.violation(dict(desc, what=f"took {row['ms']} ms under OpCountLimit={L}", ops=row["ops"]))
+        # (execution time only: parsing a long source is bounded by the parse budget, not by OpCountLimit)
+        exec_ms = row["ms"] - row.get("parse_ms", 0)
+        if exec_ms > (3000 if L == 50 else 20000):
+            res.violation(dict(desc, what=f"execution took {exec_ms} ms under OpCountLimit={L}", ops=row["ops"]))
             found += 1
         if exp == "budget" and row.get("ok"):
             res.violation(dict(desc, what="an unbounded computation returned a value under a budget", value=row.get("str")))
